@@ -8,14 +8,18 @@ A call tree is a JSON-able dict per node:
                                                              moment of wrapping, or the shared object SHARED[k]
   cbd : bool                             (iconv)   convert_by_default
   rec : bool                             (conv, fs via tograph)  recursive
+  feat: None | 'NAME_SCOPES' | 'AUTO_CONTROL_DEPS' | 'ALL' | 'LISTS+NAME_SCOPES'   (conv, fs)  optional features of the
+        conversion options; each of these makes FunctionScope refuse the options (AssertionError "... not supported")
   via : which real API realises the kind (see `callable_for`)
   v   : 'for' | 'while' | 'meth' | 'partial' | 'callable'   which body of c16_bodies is wrapped (function, bound method,
         functools.partial of a function, callable object)
+  take: None | int   (generator callees, v in gen / genmeth) the consumer resumes the generator only `take` times and then
+        keeps it suspended until the end of the thread; such trees are judged by the direct oracle only
   ch  : children, ra : None | int (raise Boom before child `ra`, or after the last one if ra == len(ch)), ca : catches Boom
 
 Nothing here needs Lean.
 """
-import functools, re, sys, threading, time
+import functools, inspect, re, sys, threading, time
 
 import c16_bodies as B
 
@@ -37,13 +41,17 @@ class _Malt(object):
         self.letter = {S.UNSPECIFIED: 'U', S.ENABLED: 'E', S.DISABLED: 'D'}
         # context objects created by "someone else" and handed to convert()/internal_convert(): shared by all threads
         self.shared = [ag_ctx.ControlStatusCtx(status=self.status[STATUS_LETTERS[k % 3]]) for k in range(N_SHARED)]
-        self.opts = {ur: converter.ConversionOptions(recursive=True, user_requested=ur, optional_features=None)
-                     for ur in (False, True)}
+        F = converter.Feature
+        self.feats = {None: None, 'NAME_SCOPES': F.NAME_SCOPES, 'AUTO_CONTROL_DEPS': F.AUTO_CONTROL_DEPS, 'ALL': F.ALL,
+                      'LISTS+NAME_SCOPES': (F.LISTS, F.NAME_SCOPES)}
+        self.opts = {(ur, ft): converter.ConversionOptions(recursive=True, user_requested=ur, optional_features=fv)
+                     for ur in (False, True) for ft, fv in self.feats.items()}
         self.bodies = {'for': B.body_for, 'while': B.body_while, 'meth': B.HOLDER.body_meth,
-                       'partial': functools.partial(B.body_for), 'callable': B.CALLABLE}
+                       'partial': functools.partial(B.body_for), 'callable': B.CALLABLE,
+                       'gen': B.gbody_for, 'genmeth': B.HOLDER.gbody_meth}
         self.lock = threading.Lock()
         self.table = {}
-        for name in ('obs', 'kids', 'step', 'last', 'handle', 'nkids', 'kid', 'kid_id', 'run_native', 'new_ctx', 'inner'):
+        for name in ('obs', 'kids', 'step', 'last', 'handle', 'handle_refusal', 'drive', 'nkids', 'kid', 'kid_id', 'run_native', 'new_ctx', 'inner'):
             api.autograph_artifact(getattr(Env, name))
 
     def cached(self, key, make):
@@ -74,14 +82,15 @@ class _Malt(object):
             return self.cached(('unspec', v), lambda: api.call_with_unspecified_conversion_status(body))
         if k == 'conv':
             ur, rec, c = nd['ur'], nd.get('rec', True), nd['c']
+            feats = self.feats[nd.get('feat')]
             conv = malt.convert if nd.get('via') == 'malt' else api.convert
             if c == 'current':
                 def conv_current(env, p):
-                    return conv(recursive=rec, optional_features=None, user_requested=ur,
+                    return conv(recursive=rec, optional_features=feats, user_requested=ur,
                                 conversion_ctx=ag_ctx.control_status_ctx())(body)(env, p)
                 return api.autograph_artifact(conv_current)
-            key = ('conv', v, ur, rec, c if c == 'null' else c[1], nd.get('via'))
-            return self.cached(key, lambda: conv(recursive=rec, optional_features=None, user_requested=ur,
+            key = ('conv', v, ur, rec, c if c == 'null' else c[1], nd.get('via'), nd.get('feat'))
+            return self.cached(key, lambda: conv(recursive=rec, optional_features=feats, user_requested=ur,
                                                  conversion_ctx=self.ctx_arg(c))(body))
         if k == 'iconv':
             ur, cbd, c = nd['ur'], nd['cbd'], nd['c']
@@ -97,23 +106,25 @@ class _Malt(object):
 
             def ctx_helper(env, p):
                 with ag_ctx.ControlStatusCtx(status=st):
-                    body(env, p)
+                    return body(env, p)
             return api.autograph_artifact(ctx_helper)
         if k == 'fs':
             ur, via = nd['ur'], fs_realisation(nd)
+            ft = nd.get('feat')
+            feats = self.feats[ft]
             if via == 'tograph':
                 rec = nd.get('rec', True)
-                return self.cached(('tg', v, rec), lambda: malt.to_graph(body, recursive=rec, experimental_optional_features=None))
+                return self.cached(('tg', v, rec, ft), lambda: malt.to_graph(body, recursive=rec, experimental_optional_features=feats))
             if via == 'tograph_lam':
-                return self.cached(('tgl',), lambda: malt.to_graph(B.lam, recursive=True, experimental_optional_features=None))
+                return self.cached(('tgl', ft), lambda: malt.to_graph(B.lam, recursive=True, experimental_optional_features=feats))
             if via == 'wfs':
                 def wfs_helper(env, p):
-                    return fw.with_function_scope(lambda scope: body(env, p), 'lscope', self.opts[ur])
+                    return fw.with_function_scope(lambda scope: body(env, p), 'lscope', self.opts[(ur, ft)])
                 return api.autograph_artifact(wfs_helper)
 
             def scope_helper(env, p):
-                with fw.FunctionScope('f', 'fscope', self.opts[ur]):
-                    body(env, p)
+                with fw.FunctionScope('f', 'fscope', self.opts[(ur, ft)]):
+                    return body(env, p)
             return api.autograph_artifact(scope_helper)
         raise ValueError('unknown kind %r' % (k,))
 
@@ -130,7 +141,7 @@ def M():
     return _M
 
 
-BODY_NAMES = ('body_for', 'body_while', 'body_meth', '__call__')
+BODY_NAMES = ('body_for', 'body_while', 'body_meth', '__call__', 'gbody_for', 'gbody_meth')
 
 
 def observer_is_converted(frame):
@@ -199,6 +210,7 @@ class Env(object):
         self.log = []            # (path, point, ctx object, observer is converted code)
         self.tid, self.gate, self.jitter = tid, gate, jitter
         self.default = None
+        self.parked = []
         self.outcome = None
         self.final_stack = None
         self.detail = None
@@ -245,6 +257,32 @@ class Env(object):
         else:
             raise
 
+    def drive(self, c, r):
+        """Consumer side of a generator child `c` (called from the parent's body with what the call returned): observe
+        after creation, then resume step by step, observing between resumptions, until exhausted."""
+        if not inspect.isgenerator(r):
+            return
+        self.obs(c, 'made')
+        take = self.nodes[c].get('take')
+        j = 0
+        while take is None or j < take:
+            try:
+                next(r)
+            except StopIteration:
+                return
+            self.obs(c, 'res', j)
+            j += 1
+        self.parked.append(r)      # the consumer goes on (and may return) while the generator stays suspended
+
+    def handle_refusal(self, nid):
+        """`except AssertionError:` of a body: only a function scope's refusal of its options is catchable."""
+        import sys as _sys
+        e = _sys.exc_info()[1]
+        if self.nodes[nid]['ca'] and is_refusal(e):
+            self.obs(nid, 'caught')
+        else:
+            raise
+
     def run_native(self, nid):
         return self.m.bodies[self.nodes[nid].get('v', 'for')](self, nid)
 
@@ -271,6 +309,9 @@ class Env(object):
                 self.detail = '%s: %s' % (type(e).__name__, str(e)[-300:])
             finally:
                 self.obs((), 'fin')
+            for g in reversed(self.parked):      # the suspended generators are closed only now, innermost first
+                g.close()
+            self.parked = []
             stk = getattr(ag_ctx.stacks, 'control_status', None)
             self.final_stack = list(stk) if isinstance(stk, list) else None
         except BaseException as e:  # noqa  (harness or gate trouble)
@@ -280,7 +321,17 @@ class Env(object):
                 self.gate.done(self.tid)
 
 
+def is_refusal(e):
+    return isinstance(e, AssertionError) and 'not supported' in str(e)
+
+
 def classify(e):
+    if is_refusal(e):
+        return ['rejected']
+    return _classify(e)
+
+
+def _classify(e):
     if isinstance(e, B.Boom):
         m = re.search(r'@([\d.]*)@', str(e))
         return ['boom', [int(x) for x in m.group(1).split('.') if x] if m else None]
@@ -373,9 +424,15 @@ def canon_stack(env):
 
 
 # ---------------------------------------------------------------------- the direct oracle (the property itself)
+def is_gen(nd):
+    return nd.get('v') in ('gen', 'genmeth')
+
+
 def required_status(nd, outer):
     """What the property's text fixes about the status inside a node (None: nothing)."""
     k = nd['k']
+    if is_gen(nd):
+        return None      # the wrapper call only creates the generator; its body runs later, in the consumer's context
     if k == 'dnc':
         return 'D'
     if k == 'fs' and nd['ur']:
@@ -393,6 +450,21 @@ def oracle(env, clog):
     by_owner = {}
     for path, pt, conv, cid, st in clog:
         by_owner.setdefault(tuple(path), []).append((pt, cid, st))
+    # generator callees: after the wrapper call that created the generator, and after every resumption, the consumer's
+    # current context must be the very object it was before (the consumer's own body-level context)
+    for owner, obs in by_owner.items():
+        nd = env.nodes.get(owner)
+        parent = by_owner.get(owner[:-1]) if owner else None
+        if nd is None or not is_gen(nd) or not parent:
+            continue
+        for o in obs:
+            consumer = o[0] == 'made' or (isinstance(o[0], list) and o[0][0] == 'res')
+            if consumer and (o[1], o[2]) != (parent[0][1], parent[0][2]):
+                what = 'the call that created' if o[0] == 'made' else 'resumption %d of' % o[0][1]
+                probs.append('context not restored: after %s the generator of %s-wrapped generator function %s returned to its '
+                             'consumer, the consumer\'s current context is %s/%s; it was %s/%s before' % (
+                                 what, nd['k'], list(owner), o[1], o[2], parent[0][1], parent[0][2]))
+                break
     # restoration: every body (and the runner itself, owner ()) sees one object throughout
     for owner, obs in by_owner.items():
         first = obs[0]
@@ -414,7 +486,7 @@ def oracle(env, clog):
         want = required_status(nd, outer)
         if want is not None and obs[0][2] != want:
             probs.append('status inside %s node %s is %s, must be %s' % (nd['k'], list(owner), obs[0][2], want))
-    if env.outcome[0] not in ('ok', 'boom'):
+    if env.outcome[0] not in ('ok', 'boom', 'rejected'):
         probs.append('call ended with %s (%s)' % (env.outcome, env.detail))
     if env.final_stack is not None:
         cs = canon_stack(env)
@@ -438,6 +510,10 @@ def fs_realisation(nd):
 
 def kind_sexp(nd):
     k = nd['k']
+    if is_gen(nd):
+        # Model view of a generator child: its body, run natively at the consumer's level.  (That the wrapper call which
+        # created it and every resumption leave the consumer's context alone is judged by the direct oracle.)
+        return ['fs', False, False]
     if k == 'plain':
         return 'plain'
     if k == 'dnc':
@@ -448,18 +524,19 @@ def kind_sexp(nd):
         return ['ctx', nd['st'], nd.get('via') == 'src']
     if k == 'fs':
         r = fs_realisation(nd)
+        ft = nd.get('feat') is not None
         if r == 'tograph':
-            return ['tg', bool(nd.get('rec', True)), False]
+            return ['tg', bool(nd.get('rec', True)), False, ft]
         if r == 'tograph_lam':
-            return ['tg', True, True]
-        return ['fs', bool(nd['ur'])]
+            return ['tg', True, True, ft]
+        return ['fs', bool(nd['ur']), ft]
 
     def cref(c):
         if c in ('null', 'current'):
             return c
         return ['obj', ['s', c[1]], STATUS_LETTERS[c[1] % 3]]
     if k == 'conv':
-        return ['conv', bool(nd['ur']), bool(nd.get('rec', True)), cref(nd['c'])]
+        return ['conv', bool(nd['ur']), bool(nd.get('rec', True)), nd.get('feat') is not None, cref(nd['c'])]
     if k == 'iconv':
         return ['iconv', cref(nd['c']), bool(nd['cbd']), bool(nd['ur'])]
     raise ValueError(k)
@@ -480,6 +557,11 @@ def log_sexp(clog):
             return ['f', int(c[1:])]
         return 'none'
     return [[path, pt, bool(conv), cid(c), st if st in ('U', 'E', 'D') else 'none'] for path, pt, conv, c, st in clog]
+
+
+def model_view(clog):
+    """The part of a real log the model speaks about: without the consumer's `made` / `res` observations."""
+    return [o for o in clog if not (o[1] == 'made' or (isinstance(o[1], list) and o[1][0] == 'res'))]
 
 
 def model_answer(ans):
